@@ -79,9 +79,9 @@ build_sim() {
     rm -rf "$tmp"
 }
 
-# prune old caches (keep the 3 most recent of each kind) - disk is limited
+# prune old caches (keep the 9 most recent of each kind) - disk is limited
 prune() {
-    ls -dt "$B"/$1-* 2>/dev/null | tail -n +4 | xargs -r rm -rf
+    ls -dt "$B"/$1-* 2>/dev/null | tail -n +10 | xargs -r rm -rf
 }
 
 (
